@@ -111,6 +111,9 @@ type World struct {
 	lastDigestStep int
 	bulkGraphs     []*data.ContentHash_Graph // graphs attested by bulkAttest steps
 	forceGas       uint64                    // replay: the recorded gas limit of the next delivery
+	// identifiers of entities that were created only inside discarded branches (speculative steps): as far as
+	// state is concerned they never existed, and later messages sometimes name them
+	phCreditTypes, phClasses, phProjects, phBatches, phBaskets []string
 }
 
 type originRef struct{ ID, Source, Contract string }
